@@ -337,7 +337,7 @@ def judge(items, info, chk, pc, nwarn):
 
 
 def jobs(tier, seed):
-    return [f"chunk{i}" for i in range(NCHUNK)]
+    return [f"chunk{i}" for i in range(NCHUNK)] + ['diff']
 
 
 def run_job(prog, job, tier, seed):
@@ -347,6 +347,9 @@ def run_job(prog, job, tier, seed):
     stats = {}
     import z3
     try:
+        if job == 'diff':
+            bridge.diff_corpus(chk, gen, runner, 30 if tier == 'quick' else 200, seed)
+            return chk.res
         i = int(job[5:])
         sh = shapes(tier)[i::NCHUNK]
         bridge.run_text_shapes(chk, gen, runner, sh, judge, stats, symbolic={1000003: z3.BitVec('d', 128)})
